@@ -236,6 +236,14 @@ def _extract_chapter(
                 self.skip_depth = max(self.skip_depth - 1, 0)
             return
 """)]),
+ "H12_html_fields_renamed": (H, [("skip_depth", "_skip_level"), ("last_closed", "_last_closed_node"), ("self.stack", "self._open_nodes")]),
+ "H13_html_tables_rewritten_and_renamed": (H, [('REMOVE_TAGS = {"script", "style", "noscript", "iframe", "object", "embed", "applet"}',
+                                                 'REMOVE_TAGS = {"script", "style"} | {"noscript", "iframe", "object", "embed", "applet"}'),
+                                                ("_VOID_TAGS", "_VOID_ELEMENTS")]),
+ "H14_epub_get_text_joins_a_generator": (E, [('text = "".join(self.text_parts)', 'text = "".join(part for part in self.text_parts)')]),
+ "H15_default_charref_conversion": (H, [("""        super().__init__(convert_charrefs=True)
+        # Root node""", """        super().__init__()
+        # Root node""")]),
  "B17_mhtml_yields_its_own_rendering": (MH, [("""            yield result
 """, """            result.content = html_content.decode("utf-8", "replace")
             yield result
@@ -266,7 +274,7 @@ try:
         p = f"{d}/{rel}"
         s = open(p).read()
         for a, b in edits:
-            assert s.count(a) == 1, (name, a[:60], s.count(a))
+            assert s.count(a) == 1 or (s.count(a) > 1 and "\n" not in a and name.startswith("H1")), (name, a[:60], s.count(a))
             s = s.replace(a, b)
         open(p, "w").write(s)
         r = subprocess.run(["timeout", "600", "./check", "C17"], cwd=ROOT, env=dict(os.environ, VERIF_REPO=d), capture_output=True, text=True)
